@@ -191,7 +191,11 @@ m("C06-pm-delete-other-index", PMA, "        self.tree\n            .delete(inde
 m("C06-full-subtree-root-start", FMT, "            let mut idx = self.capacity() + index - 1;\n            let mut nd = self.depth;", "            let mut idx = self.capacity() + index;\n            let mut nd = self.depth;", "C06")
 m("C06-opt-subtree-root-shift", OMT, "            Ok(self.get_node(n, index >> (self.depth - n)))", "            Ok(self.get_node(n, index >> (self.depth - n - 1)))", "C06")
 m("C06-full-parent-formula", FMT, "            Some(((index + 1) >> 1) - 1)", "            Some((index >> 1).saturating_sub(1))", "C06")
-m("C08-pm-span-clamped", PMA, "        let end = indices.last().unwrap() + 1;\n\n        // Positions of the span", "        let end = (indices.last().unwrap() + 1).min(self.tree.leaves_set());\n\n        // Positions of the span", "C08")
+m("C08-benign-pm-span-clamped", PMA, "        let end = indices.last().unwrap() + 1;\n\n        // Positions of the span", "        let end = (indices.last().unwrap() + 1).min(self.tree.leaves_set());\n\n        // Positions of the span", "C08")
+m("C08-pm-filter-dropped", PMA, "            .filter(|&i| i < next_index)\n", "            .filter(|&i| i < next_index || true)\n", "C08")
+m("C08-pm-filter-inclusive", PMA, "            .filter(|&i| i < next_index)\n", "            .filter(|&i| i <= next_index)\n", "C08")
+m("C08-pm-empty-guard-dropped", PMA, "        if indices.is_empty() {\n            return Ok(());\n        }\n        let start = indices[0];", "        let start = indices[0];", "C08")
+m("C08-pm-span-short", PMA, "        let end = indices.last().unwrap() + 1;\n\n        // Positions of the span", "        let end = *indices.last().unwrap();\n\n        // Positions of the span", "C08")
 m("C08-pm-dispatch-unsorted", PMA, "        indices.sort();\n", "", "C08")
 m("C08-full-filter-inclusive-range", FMT, "        for &i in indices.iter().filter(|&&i| i < start || i >= end) {", "        for &i in indices.iter().filter(|&i| !(start..=end).contains(i)) {", "C08")
 m("C08-benign-filter-as-range", FMT, "        for &i in indices.iter().filter(|&&i| i < start || i >= end) {", "        for &i in indices.iter().filter(|&i| !(start..end).contains(i)) {", "C08")
